@@ -16,7 +16,7 @@ Cuts(r) == IF "cuts" \in DOMAIN r THEN {r.cuts[i] : i \in 1..Len(r.cuts)} ELSE {
 
 Start ==
   /\ l <= Len(Rec) /\ acc = NoAcc
-  /\ acc' = AccInit(Rec[l].zlib, Rec[l].mode = "produce", Cuts(Rec[l]), Len(Rec[l].p))
+  /\ acc' = AccInit(Rec[l].zlib, Rec[l].mode = "produce", Cuts(Rec[l]), Len(Rec[l].p), FALSE, 1000000)
   /\ UNCHANGED <<l, nfail>>
 
 Run ==
